@@ -74,7 +74,17 @@ func stringWorkload(r *Run, v2 bool, visit strVisitor) {
 		rng := r.Rng(uint64(i) + 1<<32)
 		if !v2 {
 			v := seed3(rng, L)
-			toks := toks3(&v, L, rng, rng.IntN(2) == 0)
+			shuffle := rng.IntN(2) == 0
+			if i%4 == 1 {
+				// a fully specified vector: every metric of the level written (Not Defined spelled X), canonical order
+				for m := spec.E; m < spec.V3LevelEnd(L); m++ {
+					if v.M[m] < 0 {
+						v.M[m] = int8(rng.IntN(len(spec.V3Metrics[m].Codes)))
+					}
+				}
+				shuffle = false
+			}
+			toks := toks3(&v, L, rng, shuffle)
 			prefix := "CVSS:" + spec.V3Versions[v.Ver]
 			if i < 3*nSeedChar {
 				charEdits(w, join3(prefix, toks), &strMeta{Src: "char-edit"}, visit)
